@@ -59,6 +59,11 @@ def rand_band(rng, clsname, nchan, rate=None):
         # bands at, across and below 0 Hz (a DFT band centred on DC, the image band): labels follow the same formula
         k = int(gen._side_rng(rng).integers(4))
         fc = [0 * fc.unit, -fc, bw * float(gen._side_rng(rng).uniform(-nchan / 2, nchan / 2)), (bw * (nchan // 2 + 3)).to(fc.unit)][k]
+    if 0.12 <= r < 0.2:
+        # header fields held in single precision: the Quantity denotes exactly that float32 value
+        fc = np.float32(fc.value) * fc.unit
+        if clsname not in gen.BASEBAND:
+            bw = np.float32(bw.value) * bw.unit
     return rate, fc, bw
 
 
@@ -85,6 +90,33 @@ def wl_construct(ctx, idx, rng):
         elif clsname not in gen.BASEBAND:
             sig.chan_bw = bw / 2
         probs = monitors.band_model_problems(sig)
+    if rng.random() < 0.3:
+        # a refused assignment leaves the band where it was
+        with probes.quiet():
+            m0 = monitors.meta_of(sig)
+        attr, bad = gen.pick(rng, [("chan_bw", -2 * u.MHz), ("chan_bw", 0 * u.Hz), ("chan_bw", [1, 2] * u.MHz), ("chan_bw", 3 * u.s),
+                                   ("center_freq", [1, 2] * u.GHz), ("center_freq", 5 * u.m), ("center_freq", 1.4), ("freq_align", "middle")])
+        ctx.count("history[refused_band_assignment]")
+        try:
+            setattr(sig, attr, bad)
+        except ValueError:
+            pass
+        except Exception as e:
+            ctx.violation("band_model", f"{attr} = {bad!r} raised {type(e).__name__}, expected ValueError", None, {"what": "setter_exc_type"})
+        else:
+            ctx.violation("band_model", f"{attr} = {bad!r} was accepted", None, {"what": "setter_accepted", "attr": attr})
+        with probes.quiet():
+            try:
+                m1 = monitors.meta_of(sig)
+            except Exception as e:
+                m1 = {"error": repr(e)}
+        for k_ in ("fc", "bw", "align", "nchan", "fmin", "fmax"):
+            if m0.get(k_) != m1.get(k_):
+                ctx.violation("band_model", f"a refused assignment {attr} = {bad!r} changed {k_}: {m0.get(k_)!r} -> {m1.get(k_)!r}", None,
+                              {"what": "refused_assignment_changed_band", "attr": attr})
+                break
+        with probes.quiet():
+            probs = monitors.band_model_problems(sig) if "error" not in m1 else None
     if probs is not None:
         ctx.count("oracle[band_model_after_setter]")
         for code, text in probs:
